@@ -102,7 +102,7 @@ func propertyFailsL(prop, op, res, lean string) (why string) {
 	isOK := hasPrefix(res, "ok")
 	if base == "reuse" || (base == "ccfbmetric" && kind == "reuse") {
 		switch prop {
-		case "C11", "C13", "C14", "C16", "C10", "C02":
+		case "C11", "C13", "C14", "C15", "C16", "C10", "C02":
 			if w := reuseFails(base, kind, args, res); w != "" {
 				return w
 			}
@@ -137,6 +137,14 @@ func propertyFailsL(prop, op, res, lean string) (why string) {
 		if prop == "C16" {
 			if w := unitOracle(base, kind, args, res); w != "" {
 				return w
+			}
+			if base == "decp" && kind == "HDR" {
+				if n := len(NewR(args).H()); n < 4 && isOK {
+					return fmt.Sprintf("Header.Unmarshal accepted %d octets (memory behind the slice was read)", n)
+				}
+				if exact := execOp("dec.HDR " + args); exact != res {
+					return "Header.Unmarshal depends on memory behind the end of its input: " + clip(res, 30) + " vs " + clip(exact, 30)
+				}
 			}
 		}
 		if base == "relay" {
@@ -179,6 +187,11 @@ func propertyFailsL(prop, op, res, lean string) (why string) {
 				if l <= len(b) && countInflated(k, b[:l]) {
 					return "header count exceeds the elements present in the first packet, yet the datagram is accepted"
 				}
+			}
+		}
+		if base == "dec" && kind == "REMB" {
+			if w := rembOracle(base, kind, args, res); w != "" {
+				return w
 			}
 		}
 		if base == "dec" && kind == "CCFB" && hasPrefix(res, "ok ") {
@@ -354,6 +367,21 @@ func propertyFailsL(prop, op, res, lean string) (why string) {
 		if base == "rt" {
 			return rtOracle(args, res, true)
 		}
+		if base == "udec" && res == "err" {
+			b := NewR(args).H()
+			if framesOK(b) {
+				allRaw := true
+				for off := 0; off < len(b); off += (int(b[off+2])<<8 | int(b[off+3]) + 1) * 4 {
+					if dispatchKind(b[off:]) != "RAW" {
+						allRaw = false
+						break
+					}
+				}
+				if allRaw {
+					return "well-framed packets of unregistered types are not returned as RawPackets"
+				}
+			}
+		}
 		if base == "relay" && hasPrefix(res, "mutated") {
 			return "re-marshalling decoded packets altered a RawPacket (it no longer holds its frame verbatim): " + res
 		}
@@ -437,6 +465,16 @@ func propertyFailsL(prop, op, res, lean string) (why string) {
 	case "C10":
 		if base == "dst2" && hasPrefix(res, "mutated") {
 			return res
+		}
+		if base == "dst2" && isOK {
+			// the list after decoding B into the used value is the list of B decoded alone
+			if f := fieldsOf(args); len(f) == 2 {
+				parts := splitSemi(res)
+				fresh := execOp("dst2." + kind + " " + f[1] + " " + f[1])
+				if fp := splitSemi(fresh); len(parts) == 2 && len(fp) == 2 && parts[1] != fp[1] {
+					return "DestinationSSRC after decoding into a used value is " + clip(parts[1], 40) + ", after decoding the same bytes into a fresh one " + clip(fp[1], 40)
+				}
+			}
 		}
 		if base == "dst" && isOK {
 			p := getBody(NewR(args), kind)
